@@ -63,6 +63,10 @@ class C19(scen.WorldProp):
                 "Wheatley.C19.no_new_turn_when_stopped",
                 "Wheatley.C19.roll_call_on_start",
                 "Wheatley.C19.bot_never_roll_calls",
+                "Wheatley.C19.return_request_raises_flag",
+                "Wheatley.C19.return_request_survives_inner_wait",
+                "Wheatley.C19.return_request_ends_hold_up",
+                "Wheatley.C19.finishTick_leaves_wait",
                 "Wheatley.C19.exit_law",
                 "Wheatley.C19.inactivity_is_300s"]
     quick_budget_s = 150
@@ -72,11 +76,13 @@ class C19(scen.WorldProp):
                   "interleaving of row-generator change with size change or with Look To ends in one of the two "
                   "sequential outcomes and the selection is exactly one of applied / queued / refused; no message "
                   "except Look To and no turn changes the current generator; a peal-speed change keeps the current "
-                  "position; Stop Touch / roll-call / exit laws of the main loop. correspondence: (i) a sys.settrace "
+                  "position; Stop Touch / roll-call / exit laws of the main loop; a return request raised while the main thread "
+                  "sleeps towards a human's place survives that sleep and ends the hold-up at its first test. correspondence: (i) a sys.settrace "
                   "scheduler runs the real handlers on real threads one source line at a time and enumerates "
                   "schedules (all outcomes must be sequential ones; sequential outcomes = the Lean critical-section "
                   "model's); (ii) timed server-mode sessions with row-generator / setting / size / stop / Look To "
-                  "messages in random orders incl. malformed payloads; oracle: no handler raises, rows follow the "
+                  "messages in random orders incl. malformed payloads, and Stop Touch at every phase of a turn with human "
+                  "ringers in the band followed by 300 s of silence; oracle: no handler raises, rows follow the "
                   "generator current at Look To, <= 1 strike after Stop Touch, roll calls = starts, exit only after "
                   "300 s idle. non-trivial = a selection raced with another handler / arrived mid-touch")
 
@@ -97,6 +103,10 @@ class C19(scen.WorldProp):
         n = 40 if tier == "quick" else 400
         for i in range(n):
             yield self.session(rng)
+        # (iii) Stop Touch with human ringers in the band: while Wheatley sleeps towards a human's place,
+        # while it holds up for that human, or between its own strikes; then 300 s of silence
+        for i in range(12 if tier == "quick" else 150):
+            yield self.stop_with_humans(rng)
 
     def corpus(self):
         # witness of the repaired exit race: Look To lands in the last 10 ms idle poll before the deadline
@@ -166,6 +176,31 @@ class C19(scen.WorldProp):
               "rhythm": scen.rhythm_cfg("wait", inertia=1.0, peal_speed=ps)}
         return {"k": "world", "scenario": sc, "plan": plan}
 
+    def stop_with_humans(self, rng):
+        N = rng.choice([4, 6])
+        I0 = scen.interval(180, N)
+        t0 = 1000.5 + rng.random()
+        humans = sorted(rng.sample(range(2, N + 1), rng.randint(1, 2)))
+        lag = rng.choice([0.0, 0.0, 0.15, 0.4])
+        # a whole number of blows into the touch plus a fraction: before / after the next place is due
+        k = rng.randint(2, 4 * N) + rng.choice([0.3, 0.5, 0.8, 0.97])
+        t_stop = t0 + 3 + k * I0
+        events = [[t0 - 0.3, "msg", method_msg(N)], call(t0, LOOK_TO), [t_stop, "msg", {"m": "stop_touch"}]]
+        wheatley_bells = [b for b in range(1, 17) if b not in humans]
+        sc = {"start": 1000.0, "end": t_stop + 306.0, "tower_size": N, "events": events,
+              "on_join": scen.humans_on_join(humans, "Wheatley", wheatley_bells),
+              "bot": scen.bot_cfg({"type": "placeholder"}, up_down_in=True, stop_at_rounds=False, user_name="Wheatley",
+                                  server_id=rng.randint(1, 9)),
+              "rhythm": scen.rhythm_cfg("wait", inertia=1.0, peal_speed=180)}
+        return {"k": "world", "scenario": sc,
+                "plan": {"first": N, "t0": t0, "N": N, "t_stop": t_stop, "long": True, "humans": humans, "lag": lag}}
+
+    def agents(self, req):
+        plan = req.get("plan") or {}
+        if "humans" not in plan:
+            return None
+        return lambda s: [scen.Follower(s, plan["humans"], lambda r, p: plan["lag"], stop=plan["t_stop"])]
+
     def impl(self, req):
         if req["k"] == "sched":
             return sched.run_pair(req["pair"], req["p"], req["max"], req["bound"])
@@ -189,7 +224,7 @@ class C19(scen.WorldProp):
         if req["k"] == "sched":
             return "sched:" + req["pair"]
         plan = req["plan"]
-        return "session:" + ("second" if "second" in plan else "speed" if "speed" in plan else
+        return "session:" + ("stop+humans" if "humans" in plan else "second" if "second" in plan else "speed" if "speed" in plan else
                              "malformed" if "malformed" in plan else "long" if "long" in plan else "stop")
 
     def nontrivial(self, req, reply):
@@ -239,6 +274,8 @@ class C19(scen.WorldProp):
         def touch_rows(t_from, t_to):
             bells = [b for (t, b, h) in rings if t_from <= t < t_to]
             return [bells[i:i + N] for i in range(0, len(bells) - len(bells) % N, N)]
+        if "humans" in plan:
+            return None
         first_end = plan.get("t1", float("inf"))
         rows = touch_rows(plan["t0"], first_end)
         want = [list(range(1, N + 1))] * 2 + [r + list(range(plan["first"] + 1, N + 1)) for r in plain_rows(plan["first"], 30)]
